@@ -465,3 +465,257 @@ def rule_S5(repo: Repo) -> RuleResult:
         else:
             res.ok(m, m.node, construct, "independent of the key representation")
     return res
+
+
+# ------------------------------------------------------------------------------------------------ NV1 (nanops composites)
+
+def rule_NV1(repo: Repo) -> RuleResult:
+    """Composite NaN-aware reducers of nanops.  nanmean = nansum(..)/count(..); nanvar = (SS - S^2/n)/(n - ddof) with SS, S the
+    'sum_square' and 'sum' reductions and n the count, all three over the same array / axis / skipna / thread setting (every
+    shared parameter bound to the composite's own parameter); nanstd = nanvar(..) ** 0.5 with every parameter forwarded.  The
+    expressions are compared in canonical arithmetic form (commuted operands, `s*s` for `s**2` are the same)."""
+    from .consteval import CS, Evaluator, ParamVal, bind_call
+    from .rules_d import calls_to
+    from .rules_e import _canon, _show_canon
+    from .canon import subst_single_defs
+    res = RuleResult("NV1", "nanops composites: mean = sum/count; var = (SS - S^2/n)/(n - ddof) over one set of rows; std = var ** 0.5")
+    nm = repo.mod("nanops")
+    red, cnt, nsum = nm.func("reduce"), nm.func("count"), nm.func("nansum")
+    shared = ["arr", "skipna", "min_count", "axis", "n_threads"]
+
+    def forwarded(f: Func, rec, callee: Func, params, label: str):
+        b = bind_call(ev, rec, callee)
+        for p in params:
+            if p not in callee.named_params:
+                continue
+            v = b.values.get(p)
+            construct = f"{f.name} -> {label}: {p}"
+            if isinstance(v, ParamVal) and v.name == p:
+                res.ok(f, rec.node, construct, "bound to the composite's own parameter")
+            else:
+                res.bad(f, rec.node, construct,
+                        f"{p!r} of the {label} primitive is not bound to {f.name}'s parameter {p!r} (got {v!r}): the parts of the "
+                        f"composite would be computed over different elements / settings")
+        return b
+
+    def target_of(f: Func, call: ast.Call) -> Optional[str]:
+        for s in walk_no_nested(f.node):
+            if isinstance(s, ast.Assign) and s.value is call and len(s.targets) == 1 and isinstance(s.targets[0], ast.Name):
+                return s.targets[0].id
+        return None
+
+    def returned_formula(f: Func, env) -> Tuple[Optional[ast.Return], Optional[tuple]]:
+        rets = [r for r in walk_no_nested(f.node) if isinstance(r, ast.Return) and r.value is not None
+                and any(isinstance(x, ast.BinOp) and isinstance(x.op, (ast.Div, ast.Pow, ast.Mult)) for x in ast.walk(subst_single_defs(f, r.value)))]
+        if len(rets) != 1:
+            return None, None
+        env = dict(env)
+        for s in walk_no_nested(f.node):
+            if isinstance(s, ast.Assign) and len(s.targets) == 1 and isinstance(s.targets[0], ast.Name) and s.targets[0].id not in env:
+                env[s.targets[0].id] = _canon(s.value, env)
+        return rets[0], _canon(rets[0].value, env)
+
+    # ---- nanvar
+    f = nm.func("nanvar")
+    ev = Evaluator(repo)
+    ev.run(f)
+    roles: Dict[str, str] = {}
+    for rec in calls_to(ev, red):
+        b = bind_call(ev, rec, red)
+        v = b.values.get("reduce_func_name")
+        name = next(iter(v.vals)) if isinstance(v, CS) and len(v.vals) == 1 else None
+        role = {"sum_square": "SS", "sum_squares": "SS", "sum": "S"}.get(name)
+        if role is None:
+            res.bad(f, rec.node, f"nanvar -> reduce({name!r})", "the variance is built from the 'sum_square' and 'sum' reductions only")
+            continue
+        forwarded(f, rec, red, shared, f"reduce({name!r})")
+        t = target_of(f, rec.node)
+        if t:
+            roles[t] = role
+    crecs = calls_to(ev, cnt)
+    if len(crecs) != 1:
+        raise AnalysisError(f"NV1: nanvar calls count {len(crecs)} times (expected 1)")
+    forwarded(f, crecs[0], cnt, ["arr", "axis"], "count")
+    t = target_of(f, crecs[0].node)
+    if t:
+        roles[t] = "N"
+    if set(roles.values()) != {"SS", "S", "N"}:
+        res.bad(f, f.node, f"nanvar primitives {sorted(roles.values())}",
+                "nanvar no longer computes all of sum of squares, sum and count (each assigned to a local)")
+    else:
+        ret, got = returned_formula(f, {n: ("name", r) for n, r in roles.items()})
+        if ret is None:
+            raise AnalysisError("NV1: the formula returned by nanvar is not identified")
+        N, SS, S, ddof = ("name", "N"), ("name", "SS"), ("name", "S"), ("name", "ddof")
+        wants = []
+        for s2 in (("Pow", S, ("const", "2")), ("mul", S, S)):
+            num = ("add",) + tuple(sorted([SS, ("neg", ("div", s2, N))], key=repr))
+            den = ("add",) + tuple(sorted([N, ("neg", ddof)], key=repr))
+            wants.append(("div", num, den))
+        construct = f"nanvar = {_show_canon(got)[:100]}"
+        if got in wants:
+            res.ok(f, ret, construct, "(SS - S^2/n) / (n - ddof)")
+        else:
+            res.bad(f, ret, construct, "the value returned by nanvar is not (sum_square - sum^2/n) / (n - ddof) of its three primitives "
+                                       "(compared in canonical arithmetic form)")
+    # ---- nanmean
+    f = nm.func("nanmean")
+    ev = Evaluator(repo)
+    ev.run(f)
+    srecs, crecs = calls_to(ev, nsum), calls_to(ev, cnt)
+    if len(srecs) != 1 or len(crecs) != 1:
+        res.bad(f, f.node, f"nanmean: {len(srecs)} nansum call(s), {len(crecs)} count call(s)", "nanmean is the NaN-aware sum divided by the count")
+    else:
+        forwarded(f, srecs[0], nsum, shared, "nansum")
+        forwarded(f, crecs[0], cnt, ["arr", "axis"], "count")
+        roles = {}
+        for rec, role in ((srecs[0], "S"), (crecs[0], "N")):
+            t = target_of(f, rec.node)
+            if t:
+                roles[t] = role
+        ret, got = returned_formula(f, {n: ("name", r) for n, r in roles.items()})
+        construct = f"nanmean = {_show_canon(got)[:80] if got else '?'}"
+        if ret is not None and got == ("div", ("name", "S"), ("name", "N")):
+            res.ok(f, ret, construct, "sum / count")
+        else:
+            res.bad(f, ret or f.node, construct, "the value returned by nanmean is not nansum / count of the same elements")
+    # ---- nanstd
+    f = nm.func("nanstd")
+    ev = Evaluator(repo)
+    ev.run(f)
+    var = nm.func("nanvar")
+    vrecs = calls_to(ev, var)
+    if len(vrecs) != 1:
+        raise AnalysisError(f"NV1: nanstd calls nanvar {len(vrecs)} times (expected 1)")
+    forwarded(f, vrecs[0], var, list(var.named_params), "nanvar")
+    r = [x for x in walk_no_nested(f.node) if isinstance(x, ast.Return) and x.value is not None]
+    rv = subst_single_defs(f, r[0].value) if len(r) == 1 else None
+    ok = rv is not None and ((isinstance(rv, ast.BinOp) and isinstance(rv.op, ast.Pow) and norm(rv.right) in ("0.5", "1 / 2"))
+                             or (isinstance(rv, ast.Call) and norm(rv.func) in ("np.sqrt", "numpy.sqrt")))
+    if ok and "nanvar(" in norm(rv):
+        res.ok(f, r[0], f"nanstd = {norm(r[0].value)[:60]}", "square root of nanvar")
+    else:
+        res.bad(f, r[0] if r else f.node, f"nanstd = {norm(r[0].value)[:60] if r else '?'}", "nanstd must be the square root of nanvar")
+    return res
+
+
+# ------------------------------------------------------------------------------------------------ ND1 / PC1 (util helpers)
+
+def rule_ND1(repo: Repo) -> RuleResult:
+    """Matrix-vector helper.  _nb_dot: out[row] accumulates (+=) the product a[col][row] * b[col] with the SAME column index
+    on both factors and the row index on the output, rows ranging over the length of a column and columns over len(b);
+    nb_dot hands it a zero-initialised output of one slot per row and the matrix as a list of columns (a.T for an array)."""
+    res = RuleResult("ND1", "nb_dot: out[row] += a[col][row] * b[col] over all rows and columns, zero-initialised output, column-major input")
+    ut = repo.mod("util")
+    k = ut.func("_nb_dot")
+    params = list(k.named_params)
+    if len(params) < 3:
+        raise AnalysisError("ND1: _nb_dot no longer has (a, b, out) parameters")
+    A, B, OUT = params[:3]
+    loops = [l for l in ast.walk(k.node) if isinstance(l, ast.For) and isinstance(l.target, ast.Name)]
+    rng: Dict[str, str] = {}
+    for l in loops:
+        it = l.iter
+        if isinstance(it, ast.Call) and norm(it.func) in ("range", "nb.prange", "prange", "numba.prange") and len(it.args) == 1:
+            rng[l.target.id] = norm(it.args[0])
+    accs = [s for s in ast.walk(k.node) if isinstance(s, ast.AugAssign) and isinstance(s.target, ast.Subscript) and base_name(s.target) == OUT]
+    if len(accs) != 1:
+        res.bad(k, k.node, f"_nb_dot: {len(accs)} accumulation(s) into {OUT}", "the product must be accumulated into the output exactly once per (row, column)")
+    else:
+        s = accs[0]
+        ok = isinstance(s.op, ast.Add) and isinstance(s.value, ast.BinOp) and isinstance(s.value.op, ast.Mult) and isinstance(s.target.slice, ast.Name)
+        row = s.target.slice.id if ok else None
+        col = None
+        if ok:
+            fa = [x for x in (s.value.left, s.value.right) if isinstance(x, ast.Subscript) and base_name(x) == A]
+            fb = [x for x in (s.value.left, s.value.right) if isinstance(x, ast.Subscript) and base_name(x) == B and isinstance(x.slice, ast.Name)]
+            ok = len(fa) == 1 and len(fb) == 1
+            if ok:
+                col = fb[0].slice.id
+                # a[col][row]  or  a[col, row]
+                x = fa[0]
+                if isinstance(x.value, ast.Subscript):
+                    ok = norm(x.value.slice) == col and norm(x.slice) == row
+                elif isinstance(x.slice, ast.Tuple) and len(x.slice.elts) == 2:
+                    ok = norm(x.slice.elts[0]) == col and norm(x.slice.elts[1]) == row
+                else:
+                    ok = False
+        if ok and row != col and rng.get(row) in (f"len({A}[0])", f"len({OUT})", f"{A}[0].shape[0]") and rng.get(col) in (f"len({B})", f"len({A})", f"{B}.shape[0]"):
+            res.ok(k, s, norm(s), f"rows over {rng[row]}, columns over {rng[col]}")
+        else:
+            res.bad(k, s, norm(s), f"the kernel must accumulate {A}[col][row] * {B}[col] into {OUT}[row] with rows ranging over a column's "
+                                   f"length and columns over len({B}): another index pairing computes something else than the matrix-vector product")
+    f = ut.func("nb_dot")
+    calls = [c for c in walk_no_nested(f.node) if isinstance(c, ast.Call) and (call_name(c) or "") == "_nb_dot"]
+    if len(calls) != 1:
+        raise AnalysisError(f"ND1: nb_dot calls _nb_dot {len(calls)} times (expected 1)")
+    c = calls[0]
+    bound = dict(zip(params, c.args))
+    bound.update({kw.arg: kw.value for kw in c.keywords if kw.arg})
+    from .canon import subst_single_defs
+    o = subst_single_defs(f, bound.get(OUT)) if bound.get(OUT) is not None else None
+    fp = f.named_params[0]
+    if o is not None and isinstance(o, ast.Call) and norm(o.func) in ("np.zeros", "numpy.zeros") and o.args and norm(o.args[0]) in (f"len({fp})", f"{fp}.shape[0]"):
+        res.ok(f, c, f"out = {norm(o)}", "zero-initialised, one slot per row")
+    else:
+        res.bad(f, c, f"out = {norm(o) if o is not None else '?'}", "the output handed to the kernel must be zero-initialised with one slot per row of the matrix (the kernel only accumulates)")
+    # the matrix as a list of columns
+    arg_a = bound.get(A)
+    defs = [s.value for s in walk_no_nested(f.node) if isinstance(s, ast.Assign) and len(s.targets) == 1 and isinstance(s.targets[0], ast.Name)
+            and isinstance(arg_a, ast.Name) and s.targets[0].id == arg_a.id]
+    for d in defs:
+        t = norm(d)
+        if t == f"{fp}.T" or t == f"{fp}.transpose()" or ".columns" in t:
+            res.ok(f, d, f"{norm(arg_a)} = {t[:60]}", "list of columns")
+        else:
+            res.bad(f, d, f"{norm(arg_a)} = {t[:60]}", "the kernel indexes its first argument as [column][row]: it must be given the columns (a.T / one array per frame column)")
+    if not defs:
+        raise AnalysisError("ND1: the column list handed to _nb_dot is not identified")
+    return res
+
+
+def rule_PC1(repo: Repo) -> RuleResult:
+    """pretty_cut: codes come from searchsorted(values) on the sorted edges with the default side ('left': a value equal to an
+    edge falls into the bin that ends at that edge, which is what the printed bounds `<= e`, `l+1 - r`, `> e` say); one label
+    more than edges; nulls get code -1 whenever the data can hold nulls."""
+    res = RuleResult("PC1", "pretty_cut: searchsorted side matches the printed (left-open, right-closed) bounds; nulls -> -1; len(labels) = len(bins) + 1")
+    f = repo.func("util", "pretty_cut")
+    x = f.named_params[0]
+    ss = [c for c in walk_no_nested(f.node) if isinstance(c, ast.Call) and isinstance(c.func, ast.Attribute) and c.func.attr == "searchsorted"
+          or isinstance(c, ast.Call) and norm(c.func) in ("np.searchsorted", "numpy.searchsorted")]
+    if len(ss) != 1:
+        raise AnalysisError(f"PC1: {len(ss)} searchsorted calls in pretty_cut (expected 1)")
+    c = ss[0]
+    side = next((k.value for k in c.keywords if k.arg == "side"), None)
+    pos = c.args if isinstance(c.func, ast.Attribute) and norm(c.func.value) not in ("np", "numpy") else c.args[1:]
+    if len(pos) >= 2:
+        side = pos[1]
+    needle_ok = bool(pos) and x in {n.id for n in ast.walk(pos[0]) if isinstance(n, ast.Name)}
+    if (side is None or (isinstance(side, ast.Constant) and side.value == "left")) and needle_ok:
+        res.ok(f, c, norm(c), "side='left': (left, right] bins as printed")
+    else:
+        res.bad(f, c, norm(c), "the bin of a value must be found with searchsorted(values) and side='left' on the sorted edges: the printed "
+                               "bounds are ` <= e`, `l+1 - r` / `l - r`, ` > e`, i.e. right-closed; with side='right' a value equal to an edge "
+                               "is put into the bin whose printed bounds exclude it")
+    # nulls -> -1
+    nulls = [s for s in walk_no_nested(f.node) if isinstance(s, ast.Assign) and isinstance(s.targets[0], ast.Subscript)
+             and const_int(s.value) == -1 and ("isnull" in norm(s.targets[0].slice) or "isna" in norm(s.targets[0].slice) or "isnan" in norm(s.targets[0].slice))]
+    if nulls:
+        res.ok(f, nulls[0], norm(nulls[0]), "nulls belong to no bin")
+    else:
+        res.bad(f, f.node, "null values", "null values are no longer given the code -1 (searchsorted puts NaN after the last edge: the ` > e` bin)")
+    # labels: one head, one per adjacent pair, one tail
+    apps = [s for s in walk_no_nested(f.node) if isinstance(s, ast.Expr) and isinstance(s.value, ast.Call) and isinstance(s.value.func, ast.Attribute)
+            and s.value.func.attr == "append"]
+    loops = [l for l in walk_no_nested(f.node) if isinstance(l, ast.For) and isinstance(l.iter, ast.Call) and norm(l.iter.func) == "zip"
+             and len(l.iter.args) == 2 and norm(l.iter.args[1]) == norm(l.iter.args[0]) + "[1:]"]
+    in_loop = [a for a in apps if any(a in list(ast.walk(l)) for l in loops)]
+    lab = in_loop[0].value.func.value.id if in_loop and isinstance(in_loop[0].value.func.value, ast.Name) else None
+    literal = sum(len(s_.value.elts) for s_ in walk_no_nested(f.node) if isinstance(s_, ast.Assign) and len(s_.targets) == 1
+                  and isinstance(s_.targets[0], ast.Name) and s_.targets[0].id == lab and isinstance(s_.value, ast.List))
+    outside = [a for a in apps if a not in in_loop and isinstance(a.value.func.value, ast.Name) and a.value.func.value.id == lab]
+    if loops and in_loop and literal + len(outside) == 2:
+        res.ok(f, loops[0], f"for {norm(loops[0].target)} in {norm(loops[0].iter)}: one label per adjacent pair, plus head and tail", "")
+    else:
+        res.bad(f, f.node, "labels", "the labels must be: one head label, one per adjacent pair of edges, one tail label (len(bins) + 1 labels for the len(bins) + 1 searchsorted codes)")
+    return res
